@@ -304,7 +304,8 @@ def model_outcomes(me, entry, text, full, ctx):
         o = _call(mm, F.entry_name(levels, i, entry), text, full, ctx)
         outs.append(F.norm_names(o))
     if any(o != outs[0] for o in outs[1:]):
-        return 'ambiguous'
+        # the two tenable readings differ on this parse: the implementation must at least agree with ONE of them
+        return ('either', outs)
     return outs[0]
 
 
@@ -526,8 +527,12 @@ def execute(plan, schedule=None, refs=None):
                 log.append(['parse', mid, op['entry'], got])
                 if want is None:
                     env.count('model_unavailable')
-                elif want == 'ambiguous':
+                elif isinstance(want, tuple) and want[0] == 'either':
                     env.count('ambiguous_readings_skipped')
+                    if got not in want[1]:
+                        env.count('judged_against_either_reading')
+                        viol.append({'check': 'model', 'sub': 'parse-under-either-reading', 'op_index': opi, 'op': op, 'mod': mid,
+                                     'shape': shape_of(me), 'impl': got, 'model_late': want[1][0], 'model_early': want[1][-1]})
                 else:
                     env.count('parses_judged')
                     if int(mid) in (5, 6):
